@@ -186,7 +186,49 @@ def build_spec_graphs(case, G):
     return H, J
 
 
+# documented parameter order and defaults (from the docstrings / pinned signatures; deliberately a frozen copy: the order in which
+# a simulator takes its arguments is part of its interface, and callers pass them positionally in this order)
+INF_ = float('inf')
+DOC_SIG = {
+    'fast_SIR': [('G', None), ('tau', None), ('gamma', None), ('initial_infecteds', None), ('initial_recovereds', None), ('rho', None), ('tmin', 0), ('tmax', INF_), ('transmission_weight', None), ('recovery_weight', None), ('return_full_data', False), ('sim_kwargs', None)],
+    'fast_nonMarkov_SIR': [('G', None), ('trans_time_fxn', None), ('rec_time_fxn', None), ('trans_and_rec_time_fxn', None), ('trans_time_args', ()), ('rec_time_args', ()), ('trans_and_rec_time_args', ()), ('initial_infecteds', None), ('initial_recovereds', None), ('rho', None), ('tmin', 0), ('tmax', INF_), ('return_full_data', False), ('sim_kwargs', None)],
+    'Gillespie_SIR': [('G', None), ('tau', None), ('gamma', None), ('initial_infecteds', None), ('initial_recovereds', None), ('rho', None), ('tmin', 0), ('tmax', INF_), ('recovery_weight', None), ('transmission_weight', None), ('return_full_data', False), ('sim_kwargs', None)],
+    'fast_SIS': [('G', None), ('tau', None), ('gamma', None), ('initial_infecteds', None), ('rho', None), ('tmin', 0), ('tmax', 100), ('transmission_weight', None), ('recovery_weight', None), ('return_full_data', False), ('sim_kwargs', None)],
+    'fast_nonMarkov_SIS': [('G', None), ('trans_time_fxn', None), ('rec_time_fxn', None), ('trans_and_rec_time_fxn', None), ('trans_time_args', ()), ('rec_time_args', ()), ('trans_and_rec_time_args', ()), ('initial_infecteds', None), ('rho', None), ('tmin', 0), ('tmax', 100), ('return_full_data', False), ('sim_kwargs', None)],
+    'Gillespie_SIS': [('G', None), ('tau', None), ('gamma', None), ('initial_infecteds', None), ('rho', None), ('tmin', 0), ('tmax', 100), ('recovery_weight', None), ('transmission_weight', None), ('return_full_data', False), ('sim_kwargs', None)],
+    'Gillespie_simple_contagion': [('G', None), ('spontaneous_transition_graph', None), ('nbr_induced_transition_graph', None), ('IC', None), ('return_statuses', None), ('tmin', 0), ('tmax', 100), ('spont_kwargs', None), ('nbr_kwargs', None), ('return_full_data', False), ('sim_kwargs', None)],
+    'Gillespie_complex_contagion': [('G', None), ('rate_function', None), ('transition_choice', None), ('get_influence_set', None), ('IC', None), ('return_statuses', None), ('tmin', 0), ('tmax', 100), ('parameters', None), ('return_full_data', False), ('sim_kwargs', None)],
+    'basic_discrete_SIR': [('G', None), ('p', None), ('initial_infecteds', None), ('initial_recovereds', None), ('rho', None), ('tmin', 0), ('tmax', INF_), ('return_full_data', False), ('sim_kwargs', None)],
+    'basic_discrete_SIS': [('G', None), ('p', None), ('initial_infecteds', None), ('rho', None), ('tmin', 0), ('tmax', 100), ('return_full_data', False), ('sim_kwargs', None)],
+    'percolation_based_discrete_SIR': [('G', None), ('p', None), ('initial_infecteds', None), ('initial_recovereds', None), ('rho', None), ('tmin', 0), ('tmax', INF_), ('return_full_data', False), ('sim_kwargs', None)],
+}
+
+
+def positional(sim, args, kw):
+    """the same call with every given argument passed by position, in the documented order (defaults fill the gaps)"""
+    sig = DOC_SIG[sim]
+    names = [n for n, _ in sig]
+    if any(k not in names for k in kw):
+        return args, kw                 # an option outside the documented list: leave the call alone
+    last = max([len(args) - 1] + [names.index(k) for k in kw])
+    out = list(args)
+    for i in range(len(args), last + 1):
+        n, d = sig[i]
+        out.append(kw[n] if n in kw else d)
+    return out, {}
+
+
 def build(case, full, budget=None, G=None, extra=None):
+    f, args, kw = _build(case, full, budget=budget, G=G, extra=extra)
+    if case.get('rfd_form') and full and 'return_full_data' in kw:
+        # the flag as it comes out of a numpy comparison, or as 1: truthy, but not the singleton True
+        kw['return_full_data'] = np.bool_(True) if case['rfd_form'] == 'numpy' else 1
+    if case.get('positional') and case['sim'] in DOC_SIG:
+        args, kw = positional(case['sim'], args, kw)
+    return f, args, kw
+
+
+def _build(case, full, budget=None, G=None, extra=None):
     """-> (function, args list, kwargs dict) for the simulator described by `case` (fresh argument objects)."""
     import EoN
     from .props import c15 as _c15
@@ -358,6 +400,10 @@ def sim_case(draw, sims=SIMS, nmax=25, labels=('int', 'perm', 'str', 'tuple'), f
         case['omit_defaults'] = True
     if draw(st.integers(0, 7)) == 0:
         case['as_view'] = True
+    if draw(st.integers(0, 4)) == 0:
+        case['positional'] = True
+    if draw(st.integers(0, 5)) == 0:
+        case['rfd_form'] = draw(st.sampled_from(['numpy', 'one']))
     if sim in WEIGHTED and draw(st.integers(0, 5)) == 0:
         case['np_rates'] = True
     if sim == 'discrete_SIR' and draw(st.integers(0, 2)) == 0:
